@@ -221,7 +221,7 @@ func (c *checkSchema) ensureShortcutKeysAreValid(node *schema.ObjectNode) error 
 		if err != nil {
 			return lexeme.NewLexEventError(v.Lex, err)
 		}
-		actualType := actualRootType(s, c.rootSchema)
+		actualType := actualRootType(s, c.rootSchema, map[string]struct{}{v.Key: {}})
 
 		if actualType != json.TypeString {
 			return lexeme.NewLexEventError(
@@ -233,7 +233,10 @@ func (c *checkSchema) ensureShortcutKeysAreValid(node *schema.ObjectNode) error 
 	return nil
 }
 
-func actualRootType(s, root *schema.Schema) json.Type {
+// actualRootType returns the JSON type of the root of s, looking through type
+// shortcuts. seen holds the names of the types being looked through: a type
+// which refers back to one of them has no JSON type of its own.
+func actualRootType(s, root *schema.Schema, seen map[string]struct{}) json.Type {
 	t := s.RootNode().Type()
 	if t != json.TypeMixed {
 		return t
@@ -248,7 +251,12 @@ func actualRootType(s, root *schema.Schema) json.Type {
 			if err != nil {
 				return json.TypeMixed
 			}
-			tt = actualRootType(ss, root)
+			if _, ok := seen[tn]; ok {
+				return json.TypeMixed
+			}
+			seen[tn] = struct{}{}
+			tt = actualRootType(ss, root, seen)
+			delete(seen, tn)
 			types[tt] = struct{}{}
 		}
 		if len(types) == 1 { // all USER TYPES (example: @aaa | @bbb) have the same type (example: string)
